@@ -76,7 +76,10 @@ def _main() -> int:
             if args.head:
                 record_generator = islice(record_generator, args.lines)
             elif args.tail:
-                record_generator = reader.records(args.priority, offset=-args.lines)
+                # Start at the n-th last record; a log shorter than n lines is
+                # read from its first record, and n == 0 selects nothing.
+                first = max(len(reader) - args.lines, 0)
+                record_generator = reader.records(args.priority, offset=first)
 
             for record in record_generator:
                 record.colored = colored
